@@ -166,10 +166,43 @@ def units_cycle(pop):
             ('repeat', ('all', 'l', ('cycle', 'v', None)), (('print', V('l')), ('print', V('v')))))
 
 
+def returns_from_nested(pop):
+    """A routine leaves two nested loops by `return` from the inner one; it is called from inside a light
+    loop, a group loop, a counted loop, and from inside an expression with operands pending."""
+    outer = reduced_counted('0') + reduced_light(pop, '0')
+    inner = reduced_counted('1') + reduced_light(pop, '1')
+    labels = sorted(x.label for x in pop)
+    for (t0, p0, s0, v0), (t1, p1, s1, v1) in itertools.product(outer, inner):
+        for when in ('first', 'second'):
+            ib = [('print', N(2))] + [('print', V(x)) for x in v1]
+            if when == 'first':
+                ib.append(('return', N(7)))
+            else:
+                ib += [('assign', 'k', ('bin', '+', V('k'), N(1))),
+                       ('if', ((('bin', '>=', V('k'), N(2)), (('return', N(7)),)),), None)]
+            ob = [('print', N(1))] + [('print', V(x)) for x in v0] + [_loop(s1, ib), ('print', N(3))]
+            body = tuple(x for x in p0 + p1) + (('assign', 'k', N(0)), _loop(s0, ob), ('return', N(8)))
+            d = ('define', 'r', (), body)
+            callers = [
+                ('repeat', ('all', 'z', None), (('print', V('z')), ('callst', 'r', (), False), ('act', 'on', (('light', V('z')),)))),
+                ('repeat', ('groups', 'z', None), (('print', V('z')), ('print', ('call', 'r', ())))),
+                ('repeat', ('count', N(2)), (('print', ('bin', '+', N(100), ('call', 'r', ()))),)),
+                ('print', ('bin', '*', ('bin', '+', N(1), N(2)), ('bin', '+', ('call', 'r', ()), N(1)))),
+            ]
+            if labels:
+                callers.append(('repeat', ('in', (('light', ('str', labels[-1])), ('group', ('str', sorted({x.group for x in pop})[0]))),
+                                           'z', ('from', 'q', N(1), N(9))),
+                                (('print', V('z')), ('print', V('q')), ('callst', 'r', (), True))))
+            for c in callers:
+                yield 'ret/%s>%s/%s' % (t0, t1, when), (d, c, ('print', N(99)))
+
+
 def programs(pop, nest):
     for tag, p in single(pop):
         yield p
     for tag, p in units_cycle(pop):
+        yield p
+    for tag, p in returns_from_nested(pop):
         yield p
     if nest:
         for tag, p in nested(pop, nest):
